@@ -416,6 +416,7 @@ Section C04.
     tg_kw : c_args c = [];
     tg_kws : distinct (kw_names c) = true;
     tg_sig : sig_ok f = true;
+    tg_noself : no_self_param f = true;             (* no parameter other than the receiver is called self *)
     tg_unbound : f_bound f = None;
     tg_first : f_first_arg f = first_arg_of (f_params f) None;
     tg_ann : forall p, In p (declared f) -> p_ann p <> None;
@@ -439,7 +440,7 @@ Section C04.
   Theorem truth_kw_guards : forall f c, truth_guards f c -> kw_guards f c.
   Proof.
     intros f c t. pose proof (tg_recv f c t) as Hr. pose proof (tg_unbound f c t) as Hb.
-    pose proof (tg_sig f c t) as Hsig. pose proof (sig_ok_base f Hsig) as Hbase.
+    pose proof (sig_full_of f (tg_sig f c t) (tg_noself f c t)) as Hsig. pose proof (sig_ok_base f Hsig) as Hbase.
     pose proof Hbase as Hs0. unfold sig_base in Hs0. apply andb_true_iff in Hs0 as [Hs0 _]. apply andb_true_iff in Hs0 as [_ Hnoself].
     assert (Hfull : full_params f = f_params f) by (unfold full_params, func_params; now rewrite Hb).
     assert (Hcm : is_class_method f = false) by (unfold is_class_method; now rewrite Hb).
